@@ -29,13 +29,24 @@ def decls(rf):
 def main():
     facts = units.extract("/repo", True)
     m = {}
+    inits = {}
     for u, d in facts.items():
         m[u] = {}
+        inits[u] = {}
         for rf in d["functions"]:
             m[u][rf["name"]] = decls(rf)
+            # which locals are declared with an initialiser (a later tree that splits/merges declaration and initialisation is
+            # brought back to this shape)
+            di = {}
+            for b in rf["blocks"]:
+                for e in b["events"]:
+                    if e.get("ev") == "decl" and e.get("name") and not e.get("static"):
+                        di[e["name"]] = di.get(e["name"], False) or e.get("init") is not None
+            inits[u][rf["name"]] = di
+    m["__decl_init__"] = inits
     with open(os.path.join(VERIF, "engine", "namemap.json"), "w") as fh:
         json.dump(m, fh, indent=0, sort_keys=True)
-    print("namemap: %d functions" % sum(len(v) for v in m.values()))
+    print("namemap: %d functions" % sum(len(v) for k, v in m.items() if not k.startswith("__")))
 
 
 if __name__ == "__main__":
